@@ -258,6 +258,13 @@ def t1_twin(case, sess: Session):
             return real_get(gid)
 
         st.get_graph = slow_get
+        real_csr = st.csr
+
+        def slow_csr(gid):  # second suspension point: after the per-graph scratch state is set up, before the heap loop
+            time.sleep(jr.choice([0, 0.0003, 0.001, 0.002]))
+            return real_csr(gid)
+
+        st.csr = slow_csr
         state = {"store": st, "active_graphs": list(case["order"])}
         old = sys.getswitchinterval()
         sys.setswitchinterval(1e-6)
